@@ -846,3 +846,162 @@ func importDepthFirstRule(r *Report, p *Prog, rule string) int {
 	}
 	return n
 }
+
+// classDecidesRule (C01 CLASS-DECIDES): a comparator of two strings that
+// orders them one way when BOTH belong to some class P (both numeric, both all
+// digits) and another way otherwise is a total order only if membership of the
+// class itself decides the mixed case (every P before every non-P, or the other
+// way round). Ordering P-pairs by one key and everything else by another, with
+// nothing said about P against non-P, gives cycles (9999999999 < 10000000000 by
+// length, 10000000000 < 5a and 5a < 9999999999 as text). For each two-string
+// comparator of package semver and each predicate it calls on both operands: a
+// return taken only when the predicate holds of both requires a decision on
+// the predicate of one operand alone (a constant non-zero return under P(a) or
+// under P(b)), or a comparison of P(a) with P(b).
+func classDecidesRule(r *Report, p *Prog, rule string) int {
+	n := 0
+	for _, f := range p.Funcs {
+		if f.Pkg == nil || f.Blocks == nil || f.Synthetic != "" || f.Pkg.Pkg.Path() != modPrefix+"semver" {
+			continue
+		}
+		res := f.Signature.Results()
+		if res.Len() != 1 {
+			continue
+		}
+		if bt, ok := res.At(0).Type().Underlying().(*types.Basic); !ok || bt.Kind() != types.Int {
+			continue
+		}
+		var sp []*ssa.Parameter
+		for _, pr := range f.Params {
+			if bt, ok := pr.Type().Underlying().(*types.Basic); ok && bt.Info()&types.IsString != 0 {
+				sp = append(sp, pr)
+			}
+		}
+		if len(sp) != 2 {
+			continue
+		}
+		// predicate calls on each operand, by callee
+		type pair struct{ a, b *ssa.Call }
+		byCallee := map[*ssa.Function]*pair{}
+		for _, b := range f.Blocks {
+			for _, in := range b.Instrs {
+				c, ok := in.(*ssa.Call)
+				if !ok {
+					continue
+				}
+				g := c.Common().StaticCallee()
+				if g == nil {
+					continue
+				}
+				for _, a := range c.Common().Args {
+					for i, pr := range sp {
+						if a == ssa.Value(pr) {
+							if byCallee[g] == nil {
+								byCallee[g] = &pair{}
+							}
+							if i == 0 && byCallee[g].a == nil {
+								byCallee[g].a = c
+							}
+							if i == 1 && byCallee[g].b == nil {
+								byCallee[g].b = c
+							}
+						}
+					}
+				}
+			}
+		}
+		from := func(c *ssa.Call) func(ssa.Value) bool {
+			return func(v ssa.Value) bool {
+				if v == ssa.Value(c) {
+					return true
+				}
+				if e, ok := v.(*ssa.Extract); ok && e.Tuple == ssa.Value(c) {
+					return true
+				}
+				return false
+			}
+		}
+		// T(block): predicate calls whose truth dominates the block
+		holds := func(c *ssa.Call, at *ssa.BasicBlock) bool {
+			for _, g := range f.Blocks {
+				if len(g.Instrs) == 0 {
+					continue
+				}
+				ifi, ok := g.Instrs[len(g.Instrs)-1].(*ssa.If)
+				if !ok {
+					continue
+				}
+				// the condition is the predicate itself (not a comparison of two)
+				cond := ifi.Cond
+				if !from(c)(cond) {
+					continue
+				}
+				if s := g.Succs[0]; (s == at || s.Dominates(at)) && len(s.Preds) == 1 {
+					return true
+				}
+			}
+			return false
+		}
+		var names []*ssa.Function
+		for g := range byCallee {
+			names = append(names, g)
+		}
+		sort.Slice(names, func(i, j int) bool { return names[i].String() < names[j].String() })
+		for _, g := range names {
+			pr := byCallee[g]
+			if pr.a == nil || pr.b == nil {
+				continue
+			}
+			// only predicates: the result (or one component) is a bool used as a branch condition
+			isPred := false
+			for _, bb := range f.Blocks {
+				if len(bb.Instrs) == 0 {
+					continue
+				}
+				if ifi, ok := bb.Instrs[len(bb.Instrs)-1].(*ssa.If); ok && (from(pr.a)(ifi.Cond) || from(pr.b)(ifi.Cond)) {
+					isPred = true
+				}
+			}
+			if !isPred {
+				// the predicate values may be compared with each other
+				continue
+			}
+			var both []*ssa.Return
+			classDecided := false
+			for _, bb := range f.Blocks {
+				if len(bb.Instrs) == 0 {
+					continue
+				}
+				switch x := bb.Instrs[len(bb.Instrs)-1].(type) {
+				case *ssa.Return:
+					ha, hb := holds(pr.a, bb), holds(pr.b, bb)
+					if ha && hb {
+						both = append(both, x)
+					}
+					if ha != hb && len(x.Results) == 1 {
+						if _, may := mayBeZero(x.Results[0], nil, bb); !may {
+							classDecided = true
+						}
+					}
+				case *ssa.If:
+					if bo, ok := x.Cond.(*ssa.BinOp); ok && (bo.Op == token.NEQ || bo.Op == token.EQL) {
+						if (from(pr.a)(bo.X) && from(pr.b)(bo.Y)) || (from(pr.a)(bo.Y) && from(pr.b)(bo.X)) {
+							classDecided = true
+						}
+					}
+				}
+			}
+			if len(both) == 0 {
+				continue
+			}
+			n++
+			key := fmt.Sprintf("%s: pairs that both satisfy %s are ordered apart only if the predicate decides the mixed case", fnKey(f), g.Name())
+			if classDecided {
+				r.ok(rule, key, p.pos(both[0].Pos()), "a decision is taken on the predicate of one operand alone, or the two predicate values are compared")
+			} else {
+				r.bad(rule, key, p.pos(both[0].Pos()), fmt.Sprintf("strings that both satisfy %s are ordered by a key of their own here, and nothing orders a string that satisfies it against one that does not: the two orders disagree on mixed triples (1.0.0-9999999999 < 1.0.0-10000000000 by length, 10000000000 < 5a and 5a < 9999999999 as text), so the comparison is not transitive", g.Name()))
+			}
+		}
+	}
+	return n
+}
